@@ -617,3 +617,56 @@ pub fn draw_read_plan(rng: &mut Rng, len: u64) -> ReadPlan {
     }
     p
 }
+
+// ---------------------------------------------------------------------------
+// enumerated faults (C25 fault_enumeration): for every fixture, every XML part, every
+// element and attribute name that occurs in it, a fixed list of damages
+
+pub const FORGED_ATTR_VALUES: [&str; 6] = ["", "-1", "4294967296", "abc", "A1:", "rId999"];
+pub const FORGED_TEXT_VALUES: [&str; 8] = ["4294967295", "1e15", "1e300", "-4294967295", "1e999", "NaN", "", "=1+"];
+
+/// the full, deterministic list of (fixture, damage) cases
+pub fn enumerate_cases(fixtures_dir: &str, fixtures: &[String]) -> Vec<(String, Corrupt)> {
+    let mut out = Vec::new();
+    for f in fixtures {
+        let bytes = match std::fs::read(format!("{fixtures_dir}/{f}")) {
+            Ok(b) => b,
+            Err(_) => continue,
+        };
+        let entries = match read_entries(&bytes) {
+            Ok(e) => e,
+            Err(_) => continue,
+        };
+        for (name, data) in &entries {
+            out.push((f.clone(), Corrupt::DropEntry { name: name.clone() }));
+            out.push((f.clone(), Corrupt::EmptyEntry { name: name.clone() }));
+            if !(name.ends_with(".xml") || name.ends_with(".rels")) {
+                continue;
+            }
+            let xml = String::from_utf8_lossy(data).to_string();
+            let (els, attrs) = names_in(&xml);
+            for k in [10u8, 50, 90] {
+                out.push((f.clone(), Corrupt::TruncateXml { entry: name.clone(), keep_percent: k }));
+            }
+            for e in &els {
+                out.push((f.clone(), Corrupt::DropElement { entry: name.clone(), name: e.clone(), first: true }));
+                out.push((f.clone(), Corrupt::DropElement { entry: name.clone(), name: e.clone(), first: false }));
+            }
+            for a in &attrs {
+                out.push((f.clone(), Corrupt::DropAttr { entry: name.clone(), name: a.clone(), first: false }));
+                for v in FORGED_ATTR_VALUES {
+                    out.push((f.clone(), Corrupt::SetAttr { entry: name.clone(), name: a.clone(), value: v.to_string(), first: false }));
+                }
+            }
+            if name.contains("worksheets/sheet") {
+                for v in FORGED_TEXT_VALUES {
+                    out.push((f.clone(), Corrupt::SetText { entry: name.clone(), name: "v".into(), value: v.to_string(), first: false }));
+                }
+                for v in ["", "=", "SUM(", "A1:XFE1048577", "1/0", "REPT(\"x\",1E9)"] {
+                    out.push((f.clone(), Corrupt::SetText { entry: name.clone(), name: "f".into(), value: v.to_string(), first: false }));
+                }
+            }
+        }
+    }
+    out
+}
